@@ -1,4 +1,6 @@
 """C01 - iterator tools produce exactly what their stdlib namesakes produce."""
+from hypothesis import strategies as st
+
 from ..runner import Shard, Violation
 from ..tools import ITER_TOOLS
 from ..gen import base_case, features
@@ -7,7 +9,8 @@ from ..core import expect_return, run_async, run_sync, consumer_view, first_diff
 PROPERTY = "C01"
 LEVEL = "exploration"
 RULE = (
-    "Hypothesis draws, per iterator tool, 0-4 sources of 0-8 items (Items with keys 0..3 so that "
+    "Hypothesis draws, per iterator tool, 0-4 sources (given as async generator, list or one-shot iterator; "
+    "tee children may also be closed/dropped early in a generated order) of 0-8 items (Items with keys 0..3 so that "
     "equal-yet-distinguishable items are frequent; other value profiles where the tool allows), "
     "all valid parameters and table-driven callables; the asynchronous tool and the synchronous "
     "stdlib function are run on separately materialised copies and the consumer-visible event "
@@ -68,11 +71,26 @@ def classify(case):
     return out
 
 
+@st.composite
+def cases(draw, name, tier):
+    case = draw(base_case(name, max_len=8 if tier == "quick" else 12, max_src=4 if tier == "quick" else 5))
+    # "the same data" may be given as list, one-shot iterator or async generator
+    if name != "iter_sentinel":
+        for s in case["srcs"]:
+            s["fl"] = draw(st.sampled_from(["agen", "agen", "list", "iter"]))
+    if name == "tee" and case["params"]["n"] >= 2 and case["plan"]:
+        # a child may also be closed / dropped early: its siblings must be unaffected
+        k = case["params"]["n"]
+        closes = draw(st.lists(st.tuples(st.integers(0, len(case["plan"])), st.integers(0, k - 1)), max_size=2))
+        for pos, child in sorted(closes, reverse=True):
+            case["plan"].insert(pos, ["close", child])
+    return case
+
+
 def shards(tier):
     n = 2000
     return [
-        Shard(name, check, strategy=base_case(name, max_len=8 if tier == "quick" else 12,
-                                              max_src=4 if tier == "quick" else 5),
+        Shard(name, check, strategy=cases(name, tier),
               n=n, nontrivial=nontrivial, classify=classify, thorough_mult=15)
         for name in ITER_TOOLS
     ]
